@@ -196,15 +196,14 @@ theorem C12_sendMessage_on_conn (cfg : Cfg) (st : St) (hop : Hop) (m : Message) 
   simp [entrySend, hp]
 
 /-- What `sendMessage` does to the table when the entry exists: nothing for a provisional response;
-for a final response it deletes the key built from the hop's host as written (which is the key that
-was looked up whenever the host is an IP literal or does not resolve through the table). -/
+for a final response it deletes exactly the key that was looked up (built from the resolved host). -/
 theorem C12_sendMessage_table (cfg : Cfg) (st : St) (hop : Hop) (m : Message) (e : TransEntry)
     (hs : cfg.supported.contains (toLower hop.transport) = true)
     (hget : assocGet st.trans (fullAddr (toLower hop.transport) ((getIp cfg hop.host).getD hop.host) hop.port
               ((getClientTransaction cfg.cm m).1.getD [])) = some e) :
     (sendMessage cfg st hop m).1.trans =
       if isFinalResponse cfg.finalClasses (getClientTransaction cfg.cm m).2 then
-        assocDel st.trans (fullAddr (toLower hop.transport) hop.host hop.port ((getClientTransaction cfg.cm m).1.getD []))
+        assocDel st.trans (fullAddr (toLower hop.transport) ((getIp cfg hop.host).getD hop.host) hop.port ((getClientTransaction cfg.cm m).1.getD []))
       else st.trans := by
   unfold sendMessage
   simp only
@@ -253,7 +252,7 @@ theorem C12_after_remove_fresh (cfg : Cfg) (hs : cfg.supported.contains (str "tc
 /-! ### 5. the pipeline: registration by `handleRawMessage`, response through `sendMessage` -/
 
 /-- A request received on TCP connection `c`, with a response hop and a transaction id, is registered:
-afterwards the key of (tcp, hop host without brackets, hop port, transaction) holds an entry whose
+afterwards the key of (tcp, hop host without brackets and resolved - `regHost` -, hop port, transaction) holds an entry whose
 primary is `c`, and every entry that existed under another key is still there, unchanged.
 (`Lemmas.stamped` is the request after Via decoding and `received`/`rport` stamping, exactly as
 `handleRawMessage` computes it: `Lemmas.handleRawMessage_trans`.) -/
@@ -262,13 +261,13 @@ theorem C12_request_registers (cfg : Cfg) (hs : cfg.supported.contains (str "tcp
     (hreq : isRequest ev.msg = true) (hc : ev.tcpConn = some c)
     (hhop : getNextResponseHop cfg (Lemmas.stamped cfg st ev) = (some hop, m'))
     (htid : getClientTransaction cfg.cm m' = (some tid, m'')) :
-    (∃ e, assocGet (handleRawMessage cfg st ev).1.trans (fullAddr (str "tcp") (stripBrackets hop.host) hop.port tid) = some e
+    (∃ e, assocGet (handleRawMessage cfg st ev).1.trans (fullAddr (str "tcp") (regHost cfg hop.host) hop.port tid) = some e
           ∧ e.primary = some (.conn c)) ∧
-    (∀ k e₀, k ≠ fullAddr (str "tcp") (stripBrackets hop.host) hop.port tid → assocGet st.trans k = some e₀ →
+    (∀ k e₀, k ≠ fullAddr (str "tcp") (regHost cfg hop.host) hop.port tid → assocGet st.trans k = some e₀ →
           assocGet (handleRawMessage cfg st ev).1.trans k = some e₀) := by
-  obtain ⟨tr', e, hg⟩ := Lemmas.getTransport_tcp_some cfg st.trans (stripBrackets hop.host) hop.port tid hs
+  obtain ⟨tr', e, hg⟩ := Lemmas.getTransport_tcp_some cfg st.trans (regHost cfg hop.host) hop.port tid hs
   have htr : (handleRawMessage cfg st ev).1.trans =
-      assocSet tr' (fullAddr (str "tcp") (stripBrackets hop.host) hop.port tid) { e with primary := some (.conn c) } := by
+      assocSet tr' (fullAddr (str "tcp") (regHost cfg hop.host) hop.port tid) { e with primary := some (.conn c) } := by
     rw [Lemmas.handleRawMessage_trans, hreq, hc]
     simp only [Lemmas.registerStep, hhop, htid, hg]
   rw [htr]
@@ -295,15 +294,41 @@ theorem C12_response_on_request_connection (cfg : Cfg) (hs : cfg.supported.conta
     (hhop : getNextResponseHop cfg (Lemmas.stamped cfg st ev) = (some hop, m'))
     (htid : getClientTransaction cfg.cm m' = (some tid, m''))
     (st₂ : St)
-    (hreach : Reach cfg (fullAddr (str "tcp") (stripBrackets hop.host) hop.port tid) (handleRawMessage cfg st ev).1.trans st₂.trans)
+    (hreach : Reach cfg (fullAddr (str "tcp") (regHost cfg hop.host) hop.port tid) (handleRawMessage cfg st ev).1.trans st₂.trans)
     (rhop : Hop) (rm : Message)
     (hsr : cfg.supported.contains (toLower rhop.transport) = true)
     (hkey : fullAddr (toLower rhop.transport) ((getIp cfg rhop.host).getD rhop.host) rhop.port
-              ((getClientTransaction cfg.cm rm).1.getD []) = fullAddr (str "tcp") (stripBrackets hop.host) hop.port tid) :
+              ((getClientTransaction cfg.cm rm).1.getD []) = fullAddr (str "tcp") (regHost cfg hop.host) hop.port tid) :
     (sendMessage cfg st₂ rhop rm).2 = [.conn c ((getClientTransaction cfg.cm rm).2.bytes cfg.cm)] := by
   obtain ⟨⟨e, he, hp⟩, -⟩ := C12_request_registers cfg hs st ev c hop m' m'' tid hreq hc hhop htid
   have hinv := C12_invariant cfg _ e _ _ hreach he
   exact C12_sendMessage_on_conn cfg st₂ rhop rm e c hsr (by rw [hkey]; exact hinv) hp
+
+/-- The registration key and the lookup key agree for EVERY hop host, literal or name: the connection is
+registered under the address `sendMessage` resolves the response hop to. (Before the repair recorded as
+D17 in DESIGN.md the registration used the host as written, and a sent-by host name known to the host
+table made the response leave on a new connection.) -/
+theorem C12_registration_key_is_lookup_key (cfg : Cfg) (h : Bytes) (hb : stripBrackets h = h) :
+    regHost cfg h = (getIp cfg h).getD h := by
+  simp [regHost, hb]
+
+/-- ... and so the response whose hop is the request's response hop (same host text, port, protocol tcp,
+same transaction) is written on the request's connection: `hkey` of the theorem above is discharged. -/
+theorem C12_same_hop_same_connection (cfg : Cfg) (hs : cfg.supported.contains (str "tcp") = true)
+    (st : St) (ev : RawEv) (c : Nat) (hop : Hop) (m' m'' : Message) (tid : Bytes)
+    (hreq : isRequest ev.msg = true) (hc : ev.tcpConn = some c)
+    (hhop : getNextResponseHop cfg (Lemmas.stamped cfg st ev) = (some hop, m'))
+    (htid : getClientTransaction cfg.cm m' = (some tid, m''))
+    (hb : stripBrackets hop.host = hop.host)
+    (st₂ : St)
+    (hreach : Reach cfg (fullAddr (str "tcp") (regHost cfg hop.host) hop.port tid) (handleRawMessage cfg st ev).1.trans st₂.trans)
+    (rm : Message) (htr : toLower hop.transport = str "tcp")
+    (hrt : (getClientTransaction cfg.cm rm).1 = some tid) :
+    (sendMessage cfg st₂ hop rm).2 = [.conn c ((getClientTransaction cfg.cm rm).2.bytes cfg.cm)] := by
+  refine C12_response_on_request_connection cfg hs st ev c hop m' m'' tid hreq hc hhop htid st₂ hreach hop rm
+    (by rw [htr]; exact hs) ?_
+  rw [htr, hrt, C12_registration_key_is_lookup_key cfg hop.host hb]
+  rfl
 
 /-! ### non-vacuity -/
 
@@ -373,14 +398,14 @@ theorem tidR : getClientTransaction cfg0.cm rsp0 = (some [73, 78, 86, 73, 84, 69
   simp only [getClientTransaction, getCSeq, getVia, findHeader, viaName, cseqName, Lemmas.str_via, Lemmas.str_cseq, Lemmas.str_branch]
   decide
 
-theorem key0 : fullAddr (str "tcp") (stripBrackets hopR.host) hopR.port [73, 78, 86, 73, 84, 69, 45, 122, 57, 97] =
+theorem key0 : fullAddr (str "tcp") (regHost cfg0 hopR.host) hopR.port [73, 78, 86, 73, 84, 69, 45, 122, 57, 97] =
     [116, 99, 112, 58, 47, 47, 49, 48, 46, 48, 46, 48, 46, 49, 58, 53, 48, 54, 48, 45, 73, 78, 86, 73, 84, 69, 45, 122, 57, 97] := by
   simp only [fullAddr, Lemmas.str_tcp, Lemmas.str_schemeSep]
   decide
 
 theorem keyR : fullAddr (toLower hopR.transport) ((getIp cfg0 hopR.host).getD hopR.host) hopR.port
       ((getClientTransaction cfg0.cm rsp0).1.getD []) =
-    fullAddr (str "tcp") (stripBrackets hopR.host) hopR.port [73, 78, 86, 73, 84, 69, 45, 122, 57, 97] := by
+    fullAddr (str "tcp") (regHost cfg0 hopR.host) hopR.port [73, 78, 86, 73, 84, 69, 45, 122, 57, 97] := by
   rw [tidR, key0]
   simp only [fullAddr, Lemmas.str_tcp, Lemmas.str_schemeSep]
   decide
